@@ -108,7 +108,9 @@ PROPS = {
         "gens": [],
         "lean": "Anko.Props.C20",
         "streams": [{"name": "prov", "n_quick": 100, "n_thorough": 100},
-                    {"name": "ops", "n_quick": 1500, "n_thorough": 30000}],
+                    {"name": "ops", "n_quick": 1500, "n_thorough": 30000},
+                    # values bound from slots of typed containers / struct fields whose element type is itself a reference kind
+                    {"name": "cont", "n_quick": 300, "n_thorough": 3000}],
         "trusted": ["the operator / interpreter model (validated differentially each run, operands in variable, slice-element and literal modes)"],
         "assumptions": ["RV.ity models reflect kind Interface; the model never inspects it except through the unwrap idiom (syntactic fact of lean/Anko/Model/Eval.lean)"],
         "partial": ["the whole-evaluator theorem (interface_flag_is_unobservable) is about the model: two provenance policies through all 28 functions of the evaluator; Go values the model has no constructor for (typed slices, pointers, channels, structs) are covered by the prov stream only"],
